@@ -110,7 +110,7 @@ def judge(fam, case, res, strict):
     a = attr_of(fam, case)
     cat = fam.cat(a.type)
     tk = a.type.key()
-    ctx = '%s/%s/%s%s' % (mode, tk, case['form'], '/complex-part' if case['complex'] else '')
+    ctx = '%s/%s/%s%s%s' % (mode, tk, case['form'], '/complex-part' if case['complex'] else '', '/read-by-the-constructor' if case.get('ctor') else '')
     inc = any(i == 10 and st == 'I' for i, st, en, t in res.get('dump', []))
     if a.optional:
         if sev < 2:
@@ -172,6 +172,9 @@ def main():
                 d['strict'] = strict
                 d['family'] = fam.name
                 cases.append(d)
+                # the same file read by a STEPfile whose constructor is given the file name and the mode (plain markers of the kind entities)
+                if fam.name == 'fk' and c['form'] in ('none', '$', 'empty') and c['ent'].startswith(('e_', 'o_')) and not c['complex']:
+                    cases.append(dict(d, ctor=True))
         results = p21run.run_many(lib, cases, chunksize=16)
         bad = set()
         for c, r in zip(cases, results):
